@@ -732,11 +732,14 @@ def apply_rules(body, extra=()):
     log = Log()
     text = body
     _counter[0] = 0
+    off = set(name[1:] for name, kw in extra if name.startswith("-"))     # `//@ rule: -R10` switches a default rule off
+    extra = [(name, kw) for name, kw in extra if not name.startswith("-")]
     for name, kw in extra:
         if kw.get("when") == "first":
             text = RULES[name](text, log, **{k: v for k, v in kw.items() if k != "when"})
     for name in DEFAULT_ORDER:
-        text = RULES[name](text, log)
+        if name not in off:
+            text = RULES[name](text, log)
     for name, kw in extra:
         if kw.get("when") != "first":
             text = RULES[name](text, log, **kw)
